@@ -83,9 +83,20 @@ class Monitors:
     def __init__(self, ctx):
         self.ctx = ctx
         self.saved = []
+        self._inherited = set()
 
     def _get(self, owner, name):
-        raw = owner.__dict__[name] if isinstance(owner, type) else getattr(owner, name)
+        if isinstance(owner, type) and name not in owner.__dict__:
+            # inherited (a refactoring may have moved it to a base class): monitor it on the owner anyway
+            for base in owner.__mro__[1:]:
+                if name in base.__dict__:
+                    raw = base.__dict__[name]
+                    break
+            else:
+                raise AttributeError(f"{owner.__name__}.{name} does not exist")
+            self._inherited.add((owner, name))
+        else:
+            raw = owner.__dict__[name] if isinstance(owner, type) else getattr(owner, name)
         kind = None
         fn = raw
         if isinstance(raw, classmethod):
@@ -157,7 +168,13 @@ class Monitors:
 
     def uninstall(self):
         for owner, name, raw in reversed(self.saved):
-            setattr(owner, name, raw)
+            if (owner, name) in self._inherited:
+                try:
+                    delattr(owner, name)
+                except AttributeError:
+                    pass
+            else:
+                setattr(owner, name, raw)
         self.saved.clear()
 
 
